@@ -8,8 +8,9 @@
    ufunc with code m (0 add, 1 multiply, 2 minimum, 3 maximum, 4 logical_or, 5 logical_and,
    6 bitwise_or, 7 bitwise_and, 8 bitwise_xor).  [np_reduce] (Spec/NpReduce.v) is NumPy's
    ufunc.reduce on the dense meaning [den x]. *)
-From Coq Require Import ZArith List Bool Permutation.
-From Verif Require Import Py PyReduce Shape COO COOP GCXS NpReduce Reduce ReduceLemmas ReduceKernelP ReduceP ReduceGcxsP.
+From Coq Require Import ZArith List Bool Permutation Sorting.Sorted QArith Qcanon.
+From Verif Require Import Py PyReduce Shape COO COOP GCXS Convert NpReduce Reduce ReduceExt ReduceGcxs
+  ReduceLemmas ReduceKernelP ReduceP ReduceGcxsP ReduceExtP ReduceIndptrP.
 Import ListNotations.
 Open Scope Z_scope.
 
@@ -209,7 +210,122 @@ Theorem var_dtype_promotion :
 Proof. exact var_dtype_promotion_proof. Qed.
 Print Assumptions var_dtype_promotion.
 
+(* ------------------------------------------------------------------ GCXS: the index-pointer arithmetic
+   gcxs_ip_calc (Model/ReduceGcxs.v) transcribes `idx = diff(indptr) != 0; indptr[:-1][idx];
+   arange(rows)[idx]; reduceat(x.data, ...); indptr[1:][idx] - indptr[:-1][idx]; n_cols`.
+   (1) On any array whose index pointer is the compression of a sorted row list it is _grouped_reduce on
+   those rows.  (2) On the GCXS image of a canonical COO array, the whole re-compression path
+   (Convert.gcxs_change_axes to the kept axes, then gcxs_ip_calc) returns the data, counts, row numbers
+   and n_cols of COO._reduce_calc for the complementary axes in increasing order — the function the GCXS
+   model of gcxs_reduce_den_partial uses. *)
+Theorem gcxs_ip_calc_is_grouped_reduce :
+  forall (V : Type) (op : V -> V -> V) (cast : V -> V) (x : gcxs V) rows m,
+    g_indptr x = indptr_of rows m ->
+    StronglySorted Z.le rows -> Forall (fun r => 0 <= r < m) rows ->
+    gcxs_ip_calc V op cast x =
+      (g <- grouped_reduce V op cast (g_fill x) (g_data x) rows ;;
+       let '(data, inv, counts) := g in
+       Ok (data, counts, map (fun i => nth (Z.to_nat i) rows 0) inv, col_size (g_shape x) (g_caxes x))).
+Proof. exact gcxs_ip_calc_eq_proof. Qed.
+Print Assumptions gcxs_ip_calc_is_grouped_reduce.
+
+Theorem gcxs_recompress_is_coo_calc :
+  forall (V : Type) (op : V -> V -> V) (cast : V -> V) (c : coo V) (ca axes : list Z),
+    canonical V c -> shape_ok (c_shape c) -> (2 <= length (c_shape c))%nat ->
+    let n := zlen (c_shape c) in
+    caxes_okb n ca = true -> caxes_okb n (kept_axes n axes) = true ->
+    gcxs_recompress_calc V op cast (gcxs_from_coo c ca) axes =
+      (k <- coo_reduce_calc V op cast (Some (kept_axes n (kept_axes n axes))) c ;;
+       Ok (k_data V k, k_counts V k, map (fun i => nth (Z.to_nat i) (k_rows V k) 0) (k_inv V k), k_ncols V k)).
+Proof. exact gcxs_recompress_eq_proof. Qed.
+Print Assumptions gcxs_recompress_is_coo_calc.
+
+(* ------------------------------------------------------------------ nan-reductions
+   nanreduce (Model/ReduceExt.v) = `_replace_nan(x, identity)` then reduce, for any value type with a
+   NaN test: it is NumPy's reduction of where(isnan(a), identity, a) — NumPy's own definition of
+   nansum / nanprod.  Instance: option Z with None = NaN (nansum_den_optz). *)
+Theorem nanreduce_den :
+  forall (V : Type) (veqb : V -> V -> bool), (forall a b, veqb a b = true <-> a = b) ->
+  forall (isnan : V -> bool) (op : V -> V -> V),
+    (forall a b c, op a (op b c) = op (op a b) c) -> (forall a b, op a b = op b a) ->
+  forall (cast : V -> V), (forall a b, cast (op (cast a) (cast b)) = op (cast a) (cast b)) ->
+  forall (sup : option (V -> Z -> V)) (ident : option V),
+    (forall s f, sup = Some s -> s f 1 = cast f) ->
+    (forall s f k, sup = Some s -> 1 <= k -> s f (k + 1) = op (s f k) (cast f)) ->
+  forall (x : coo V) (value : V) ax (kd : bool),
+    canonical V x -> shape_ok (c_shape x) ->
+    let repl := fun v => if isnan v then value else v in
+    match nanreduce V veqb isnan op cast sup ident (Some value) ax kd x with
+    | Ok r =>
+      exists osh g, np_reduce V op cast ident ax kd (c_shape x) (fun ix => repl (den x ix)) = Ok (osh, g) /\
+        rres_shape r = osh /\ (forall oix, in_range osh oix -> g oix = Ok (rres_den r oix)) /\
+        rres_wf V veqb r
+    | Raise e =>
+      e = ValueError /\
+      (np_reduce V op cast ident ax kd (c_shape x) (fun ix => repl (den x ix)) = Raise ValueError
+       \/ admissible V veqb op cast sup (repl (c_fill x)) = false)
+    end.
+Proof. exact nanreduce_den_proof. Qed.
+Print Assumptions nanreduce_den.
+
+Theorem nansum_den_optz : forall (x : coo (option Z)) ax (kd : bool),
+  canonical (option Z) x -> shape_ok (c_shape x) ->
+  let repl := fun v => if oz_isnan v then Some 0 else v in
+  match nanreduce (option Z) oz_eqb oz_isnan oz_add (fun v => v) (Some oz_scale) (Some (Some 0)) None ax kd x with
+  | Ok r =>
+    exists osh g, np_reduce (option Z) oz_add (fun v => v) (Some (Some 0)) ax kd (c_shape x) (fun ix => repl (den x ix)) = Ok (osh, g) /\
+      rres_shape r = osh /\ (forall oix, in_range osh oix -> g oix = Ok (rres_den r oix)) /\
+      rres_wf (option Z) oz_eqb r
+  | Raise e => e = ValueError /\
+      np_reduce (option Z) oz_add (fun v => v) (Some (Some 0)) ax kd (c_shape x) (fun ix => repl (den x ix)) = Raise ValueError
+  end.
+Proof. exact nansum_den_optz_proof. Qed.
+Print Assumptions nansum_den_optz.
+
+(* ------------------------------------------------------------------ mean_var_den over exact rationals (Qc)
+   mean_coo / var_coo (Model/ReduceExt.v) are SparseArray.mean / var as compositions over the reduce
+   pipeline: sum, division by the reduced count, the two-pass variance with ddof.  np_mean / np_var
+   (Spec/NpReduce.v) are NumPy's definitions in exact arithmetic.  std = sqrt(var) is not rational: the
+   sqrt step is not modelled.  A zero reduced count (NumPy: nan with a warning) is outside exact
+   arithmetic: both sides then divide by 0 in Qc (x / 0 = 0), which says nothing about the code. *)
+Theorem mean_den : forall (x : coo Qc) ax (kd : bool),
+  canonical Qc x -> shape_ok (c_shape x) ->
+  match mean_coo Qc qc_eqb Qcplus 0%Qc qc_scale qc_divn ax kd x with
+  | Ok r => exists osh g, np_mean Qc Qcplus 0%Qc qc_divn ax kd (c_shape x) (den x) = Ok (osh, g) /\
+      rres_shape r = osh /\ (forall oix, in_range osh oix -> g oix = Ok (rres_den r oix)) /\ rres_wf Qc qc_eqb r
+  | Raise e => np_mean Qc Qcplus 0%Qc qc_divn ax kd (c_shape x) (den x) = Raise ValueError
+  end.
+Proof. exact mean_den_proof. Qed.
+Print Assumptions mean_den.
+
+Theorem var_den : forall (x : coo Qc) (ddof : Z) ax (kd : bool),
+  canonical Qc x -> shape_ok (c_shape x) -> c_shape x <> [] ->
+  match var_coo Qc qc_eqb Qcplus Qcminus Qcmult 0%Qc qc_scale qc_divn ddof ax kd x with
+  | Ok r => exists osh g, np_var Qc Qcplus Qcminus Qcmult 0%Qc qc_divn ddof ax kd (c_shape x) (den x) = Ok (osh, g) /\
+      rres_shape r = osh /\ (forall oix, in_range osh oix -> g oix = Ok (rres_den r oix)) /\ rres_wf Qc qc_eqb r
+  | Raise e => np_var Qc Qcplus Qcminus Qcmult 0%Qc qc_divn ddof ax kd (c_shape x) (den x) = Raise ValueError
+  end.
+Proof. exact var_den_proof. Qed.
+Print Assumptions var_den.
+
 (* ------------------------------------------------------------------ examples: the hypotheses are satisfiable *)
+Example ex_mean_var :
+  canonical Qc ex_q /\
+  match mean_coo Qc qc_eqb Qcplus (qz 0) qc_scale qc_divn (AxInt (-1)) false ex_q,
+        var_coo Qc qc_eqb Qcplus Qcminus Qcmult (qz 0) qc_scale qc_divn 1 (AxInt 1) false ex_q with
+  | Ok m, Ok v =>
+    qc_eqb (rres_den m [0]) (qz 1) && qc_eqb (rres_den m [1]) (Q2Qc (4 # 3))
+    && qc_eqb (rres_den v [0]) (qz 1) && qc_eqb (rres_den v [1]) (Q2Qc (16 # 3))
+  | _, _ => false
+  end = true.
+Proof. exact ex_mean_var_proof. Qed.
+
+Example ex_nansum :
+  nanreduce (option Z) oz_eqb oz_isnan oz_add (fun v => v) (Some oz_scale) (Some (Some 0)) None (AxInt 1) false
+            (mkCOO [2; 2] [[0; 0]] [Some 1] None)
+  = Ok (RArr (mkCOO [2] [[0]] [Some 1] (Some 0))).
+Proof. exact ex_nansum_proof. Qed.
+
 Example ex_input_canonical : canonical Z ex_x /\ shape_ok (c_shape ex_x).
 Proof. exact ex_x_canonical. Qed.
 
